@@ -415,3 +415,99 @@ func genShortHeavyTree(r *rand.Rand, ps *ParamSpec, now0 int64) *Tree {
 	t.shv = info
 	return t
 }
+
+// genCtx2Tree: see ctx2Info. No retargeting: work = number of headers.
+func genCtx2Tree(r *rand.Rand, ps *ParamSpec, now0 int64) *Tree {
+	ps.NoRetarget = true
+	t := newTree(mkParams(*ps, nil))
+	info := &ctx2Info{kind: r.Intn(4)}
+	cur := t.Nodes[0]
+	add := func(dt int64) {
+		cur = t.mine(r, cur, dt, "", now0)
+		t.main = append(t.main, cur)
+	}
+	norm := func() int64 { return 300 + int64(r.Intn(300)) }
+	wide := int64(8000 + r.Intn(3000))
+	switch info.kind {
+	case 0, 1:
+		f := 12 + r.Intn(4)
+		d := 6 + r.Intn(3)
+		for len(t.main) < f {
+			add(norm())
+		}
+		info.fork = cur
+		mainDt, wDt := norm, func() int64 { return wide }
+		if info.kind == 1 {
+			mainDt, wDt = func() int64 { return wide }, func() int64 { return 1 + int64(r.Intn(3)) }
+		}
+		for i := 0; i < d; i++ {
+			add(mainDt())
+		}
+		info.mainTip = cur
+		w := info.fork
+		for i := 0; i < d; i++ {
+			w = t.mine(r, w, wDt(), "", now0)
+		}
+		// the header at exactly tip+1
+		if info.kind == 0 {
+			// after the main chain's median, not after its own (W_(d-5))
+			t.forceTime = info.mainTip.Hdr.Timestamp.Unix() + 10
+		} else {
+			// after its own median, not after the main chain's (M_(tip-5))
+			t.forceTime = w.Hdr.Timestamp.Unix() + 5
+		}
+		w = t.mine(r, w, 0, "", now0)
+		if info.kind == 0 {
+			w.Corrupt = "time-old"
+		}
+		info.wTip = t.growDt(r, w, 1+r.Intn(2), 5+int64(r.Intn(10)), now0)
+	default:
+		j := 12 + r.Intn(4) // height of M
+		for len(t.main) < j-1 {
+			add(norm())
+		}
+		info.sPar = cur
+		// the lowest timestamp the median rule allows at height j
+		low := t.medianTime(cur) + 1
+		if info.kind == 2 {
+			t.forceTime = low
+			info.s = t.mine(r, cur, 0, "", now0)
+			add(norm()) // M: ordinary
+		} else {
+			t.forceTime = cur.Hdr.Timestamp.Unix() + wide
+			info.s = t.mine(r, cur, 0, "", now0)
+			t.forceTime = low
+			add(0) // M: as low as allowed
+		}
+		info.fork = cur
+		up := 1 + r.Intn(4)
+		for i := 0; i < up; i++ {
+			add(norm())
+		}
+		info.mainTip = cur
+		// Y1's parent is handed to the check explicitly; the header at
+		// height j is looked up as an ANCESTOR from Y2 on. Y2's ancestors:
+		// Y1 (the largest), the header at height j, main[j-1 .. j-9].
+		// With an ordinary header at j the median is main[j-4], with the
+		// lowest possible one (between main[j-6] and main[j-5]) it is
+		// main[j-5]: Y2 = main[j-4] is not after the former and after the
+		// latter. kind 2: M ordinary, S low: Y2 invalid; kind 3: M low, S
+		// high: Y2 valid.
+		y := t.mine(r, info.fork, norm(), "", now0)
+		t.forceTime = t.atHeight(j - 4).Hdr.Timestamp.Unix()
+		y = t.mine(r, y, 0, "", now0)
+		if info.kind == 2 {
+			y.Corrupt = "time-old"
+		}
+		info.wTip = t.growDt(r, y, up-1+r.Intn(2), 5+int64(r.Intn(10)), now0)
+	}
+	mx := int64(0)
+	for _, n := range t.Nodes {
+		if u := n.Hdr.Timestamp.Unix(); u > mx {
+			mx = u
+		}
+	}
+	info.nowBig = mx + 60
+	t.ctx2 = info
+	return t
+}
